@@ -122,7 +122,7 @@ def menu(doc, reduced=False):
 def bounds(tier, seed):
     return {"start_docs": len(start_docs(tier)), "len1": "all start docs, full menu",
             "len2": "%d start docs, full menu" % (3 if tier == "quick" else len(len2_docs("thorough"))),
-            "len3": "none" if tier == "quick" else "6 start docs, reduced menu"}
+            "len3": "none" if tier == "quick" else "5 start docs, reduced menu"}
 
 
 LEN2_QUICK = [0, 2, 3, 5]
@@ -180,9 +180,11 @@ def plan(tier, seed):
             if k % 2 == (seed // (n2 - 3)) % 2:
                 shards.append(("L2", "thorough", 3 + seed % (n2 - 3), k, 16))
     else:
-        for i in range(6):
-            for k in range(16):
-                shards.append(("L3", i, k, 16))
+        # (length 3 is cubic in the menu: five documents, 48 shards each - sized from measured shard times after the menu
+        # gained the '-1/x' and '-0' paths; the sixth document, five members and two arrays, took a shard past its budget)
+        for i in range(5):
+            for k in range(48):
+                shards.append(("L3", i, k, 48))
     return shards
 
 
